@@ -4,7 +4,7 @@ Each module defines  register(reg) -> {property_id: {unit_name: unit}}.
 """
 import importlib
 
-MODULES = ['util', 'inputfile', 'contextdb', 'tokenizer', 'collector', 'walker', 'visitor', 'parsingstate', 'encoder', 'enctables', 'parsers', 'latex2text']
+MODULES = ['util', 'inputfile', 'contextdb', 'tokenizer', 'collector', 'walker', 'visitor', 'parsingstate', 'encoder', 'enctables', 'parsers', 'latex2text', 'mathmode', 'delimited', 'structure']
 REPLAYERS = {}
 EXTRA_ASSUMPTIONS = {}
 
@@ -14,6 +14,12 @@ def make_replay(pid, o, model):
     fn = {'C05': native_parse.replay_c05, 'C06': native_parse.replay_c06}.get(pid)
     if fn is None and pid in ('C03', 'C07', 'C12'):
         fn = native_l2t.replay_for(pid)
+    if fn is None and pid == 'C02':
+        from contracts import native_structure
+        fn = native_structure.replay
+    if fn is None and pid == 'C10':
+        from contracts import mathmode
+        fn = mathmode.replay
     fn = fn or REPLAYERS.get(o.get('unit'))
     if fn is None:
         return None
@@ -48,6 +54,19 @@ def build(reg, only=None):
     if 'C06' in units and 'C11' in units:
         for k in ('impl_read_macro', 'impl_read_environment', 'impl_char_token', 'peek_token', 'next_token'):
             units['C06'].setdefault(k, units['C11'][k])
+    # C10: the mode hand-over also rests on the tokenizer's delimiter choice (C11), on sub_context and the derived
+    # expected-closing-delimiter table (C17) and on the collector creating nodes / parsing children in its state (C01)
+    if 'C10' in units:
+        for src, names in (('C11', ['impl_maybe_read_math_mode_delimiter']), ('C17', None), ('C01', ['process_one_token'])):
+            for k, u in units.get(src, {}).items():
+                if names is None or k in names:
+                    units['C10'].setdefault(k, u)
+    # C02: one parser per argument slot (unit of C10), token dispatch and construct spans (units of C01)
+    if 'C02' in units:
+        for src, names in (('C10', ['LatexArgumentsParser.parse']), ('C01', ['process_one_token', 'parse_content'])):
+            for k, u in units.get(src, {}).items():
+                if k in names:
+                    units['C02'].setdefault(k, u)
     # C13's ASCII / 'fail' statements are lemmas over C04's step contract and policy/protection contracts
     if 'C13' in units and 'C04' in units:
         for k, u in units['C04'].items():
